@@ -471,7 +471,7 @@ pub const fn relocation_type_from_raw(r_type: u32) -> Option<RelocationKindInfo>
         ),
         object::elf::R_AARCH64_GOTREL32 => (
             RelocationKind::SymRelGotBase,
-            RelocationSize::ByteSize(8),
+            RelocationSize::ByteSize(4),
             None,
             AllowedRange::from_bit_size(32, Sign::Signed),
             1,
